@@ -8,7 +8,7 @@ or None, and the next call on the same proxy works."""
 import builtins
 import threading
 
-from vlib import core, gen, fixture
+from vlib import core, gen, fixture, yieldinj
 
 PROPERTY = "C07"
 LEVEL = "exploration"
@@ -20,7 +20,7 @@ RULE = ("every Exception subclass of builtins and Pyro5.errors x argument tuples
 ASSUMPTIONS = ["classes that cannot be constructed from the value domain (e.g. ExceptionGroup) are counted as skipped",
                "StopIteration raised from an iterator's __next__ is the end of the stream, not an exception, so it is not used for the stream kind",
                "builtin slot attributes (OSError.filename, ImportError.name, ...) are neither args nor custom attributes"]
-REQUIRED_REACH = ["aftermath_cases", "exc_ok", "kind_plain", "kind_propget", "kind_propset", "kind_batch", "kind_stream", "unserialisable_ok", "unknown_class_ok", "next_call_ok", "codec_baseexc_ok"]
+REQUIRED_REACH = ["aftermath_cases", "concurrent_exceptions_checked", "exc_ok", "kind_plain", "kind_propget", "kind_propset", "kind_batch", "kind_stream", "unserialisable_ok", "unknown_class_ok", "next_call_ok", "codec_baseexc_ok"]
 SHARD_TIMEOUT = {"quick": 240, "thorough": 2800}
 
 ARG_SHAPES = [(), ("msg",), ("msg", 2), (2, "strerror"), ("é\x00x", [1, {"k": None}], 2 ** 70, 1.5), ({"d": [1, 2.5, "s"]},), (None,), ("a", "b", "c", "d", "e", "f")]
@@ -140,6 +140,10 @@ def make_service(P, registry):
 
         def ok(self, x):
             return x
+
+        def raise_direct(self, clsname, args, attrs):
+            # stateless (no 'armed' slot): safe for several clients at once
+            raise build(registry[clsname], tuple(args), dict(attrs))
 
         def echo(self, token):
             return token
@@ -326,6 +330,51 @@ def check_unserialisable(fx, p, sername, extra, clsname, rec, token, registry):
         rec.violation("next-call-fails", "call after unserialisable remote %s failed: %r" % (clsname, x), pay)
 
 
+def concurrent_phase(fx, sername, registry, rec, r):
+    """several clients raise exceptions at the same time (their replies are serialised by different server workers at once):
+    every caller still gets exactly its own exception"""
+    P = fx.P
+    classes = ["builtins.ValueError", "builtins.KeyError", "Pyro5.errors.NamingError", "builtins.LookupError"]
+    problems = []
+    lock = threading.Lock()
+
+    def client(tid):
+        try:
+            with fx.proxy("svc", serializer=sername, timeout=10.0) as p:
+                for n in range(25):
+                    clsname = classes[(tid + n) % len(classes)]
+                    args = ["t%d-n%d" % (tid, n), 2 ** 70 + tid * 1000 + n]        # the big int takes msgpack's default() hook, like the exception itself
+                    attrs = {"who": [tid, n], "big": -(2 ** 80) - n, "note": "é%d" % tid}
+                    try:
+                        p.raise_direct(clsname, args, attrs)
+                        got = ("returned",)
+                    except Exception as x:
+                        got = (type(x), tuple(x.args), {k: v for k, v in vars(x).items() if not k.startswith("_pyro")})
+                    want = (registry[clsname], tuple(args), attrs)
+                    ok = got[0] is want[0] and gen.deep_eq(list(got[1]), list(want[1])) and gen.deep_eq(got[2], want[2])
+                    with lock:
+                        rec.count("concurrent_exceptions_checked")
+                        if not ok:
+                            problems.append("client %d call %d: raised %s%r %r remotely, the caller got %r" % (tid, n, clsname, tuple(args), attrs, got))
+        except Exception as x:
+            with lock:
+                problems.append("client %d could not work: %r" % (tid, x))
+    yieldinj.enable(("Pyro5/serializers.py", "Pyro5/protocol.py"), 0.02, rec.seed * 17 + 3, max_sleep=0.001)
+    try:
+        ts = [threading.Thread(target=client, args=(i,), daemon=True) for i in range(5)]
+        for t in ts:
+            t.start()
+        for t in ts:
+            t.join(120)
+    finally:
+        n, _ = yieldinj.disable()
+        rec.count("injected_yields", n)
+    rec.case(("concurrent", sername, fx.servertype), nontrivial=True)
+    if problems:
+        rec.violation("concurrent-exceptions-mixed-up", "%s (%s server), 5 clients raising at once: %d of the calls did not get their own exception; first: %s" % (
+            sername, fx.servertype, len(problems), problems[0]), {"concurrent": True, "serializer": sername, "servertype": fx.servertype})
+
+
 def plan(tier, seed):
     shards = []
     for st in ("thread", "multiplex"):
@@ -406,6 +455,7 @@ def run_shard(shard, rec):
                 check_case(fx, p, armed, registry[clsname], clsname, ("after the fallback", 2), {"custom_a": 1}, sername, kind, rec, "tok%d" % tokn[0])
                 rec.count("aftermath_cases")
         p._pyroRelease()
+        concurrent_phase(fx, sername, registry, rec, r)
         for kind, text in fixture.take_faults():
             if kind == "thread-exception":
                 rec.violation("server-thread-fault", text, None)
@@ -423,7 +473,10 @@ def replay(payload, rec):
         armed, svc = make_service(P, registry)
         fx.register(svc, "svc")
         p = fx.proxy("svc", serializer=payload["serializer"], timeout=8.0)
-        if "extra" in payload:
+        if payload.get("concurrent"):
+            for _ in range(5):
+                concurrent_phase(fx, payload["serializer"], registry, rec, gen.rng(0, "replay"))
+        elif "extra" in payload:
             check_unserialisable(fx, p, payload["serializer"], payload["extra"], payload["class"], rec, "tok", registry)
         else:
             check_case(fx, p, armed, registry[payload["class"]], payload["class"], payload["args"], payload["attrs"], payload["serializer"], payload["kind"], rec, "tok")
